@@ -46,3 +46,24 @@ let repr_any (a : string list) : bool =
   | _ -> All_extra.repr_extra a
 
 let () = register "repr" (fun a -> if repr_any a then "REPRESENTABLE" else "NOT-REPRESENTABLE")
+
+
+(* specification side of Content(): the text that was encoded; EAN completed by its check digit;
+   Code 39 / Code 93 full-ASCII: a standard spelling that reads back as the text *)
+let () = register "contentspec" (fun a ->
+  let n = List.length a in
+  let content = zlist_of_hex (List.nth a (n - 1)) in
+  let args = List.filteri (fun i _ -> i < n - 1) a in
+  let same x y = List.map int_of_z x = List.map int_of_z y in
+  let ok = match args with
+    | ["ean"; h] -> same content (chars_of (ean_full_number (zlist_of_hex h)))
+    | ["c39"; _; full; h] ->
+      if b full then same content (c39_spell (zlist_of_hex h)) else same content (zlist_of_hex h)
+    | ["c93"; _; full; h] ->
+      if b full then
+        (match c93_text_values content with
+         | Some vals -> (match c93_unspell vals with Some s -> same s (zlist_of_hex h) | None -> false)
+         | None -> false)
+      else same content (zlist_of_hex h)
+    | _ -> same content (zlist_of_hex (List.nth args (List.length args - 1))) in
+  if ok then "OK" else "BAD")
